@@ -626,24 +626,27 @@ class Mp4Atom(ObjectWithFields):
             fourcc = bytes(self.atom_type, 'ascii')
         self.options.log.debug('%s: encode %s pos=%d', self._fullname,
                                self.classname(), self.position)
+        # a box that was parsed with a 64-bit "largesize" header keeps that
+        # form, so that header_size stays valid and the output is unchanged
+        largesize = getattr(self, 'header_size', 0) == 12 + len(fourcc)
         if self._encoded is not None:
             self.options.log.debug('%s: Using pre-encoded data length=%d',
                                    self._fullname, len(self._encoded))
             expected_size = 4 + len(fourcc) + len(self._encoded)
+            if largesize:
+                expected_size += 8
             if self.size != expected_size:
                 msg = r'{}: Expected size {:d}, actual size {:d}'.format(
                     self._fullname, self.size, expected_size)
                 self.options.log.warning(msg)
                 if self.options.strict:
                     raise ValueError(msg)
-            out.write(struct.pack('>I', self.size))
-            out.write(fourcc)
+            out.write(self._encode_header(fourcc, self.size, largesize))
             out.write(self._encoded)
             if dest is None:
                 return out.getvalue()
             return dest
-        out.write(struct.pack('>I', 0))
-        out.write(fourcc)
+        out.write(self._encode_header(fourcc, 0, largesize))
         self.encode_fields(dest=out)
         # indent = ' ' * depth
         if self._children:
@@ -654,7 +657,7 @@ class Mp4Atom(ObjectWithFields):
         # print(f'{indent}{self.atom_type}: {self.position} -> {out.tell()} ({self.size})')
         # replace the length field
         out.seek(self.position)
-        out.write(struct.pack('>I', self.size))
+        out.write(self._encode_header(fourcc, self.size, largesize))
         out.seek(0, 2)  # seek to end
         if depth == 0:
             self.post_encode_all(dest=out)
@@ -664,6 +667,15 @@ class Mp4Atom(ObjectWithFields):
         if dest is None:
             return out.getvalue()
         return dest
+
+    @staticmethod
+    def _encode_header(fourcc: bytes, size: int, largesize: bool) -> bytes:
+        """
+        box header: size, type, [64-bit largesize], [16 byte uuid usertype]
+        """
+        if largesize:
+            return struct.pack('>I', 1) + fourcc[:4] + struct.pack('>Q', size) + fourcc[4:]
+        return struct.pack('>I', size) + fourcc
 
     @abstractmethod
     def encode_fields(self, dest):
